@@ -24,7 +24,9 @@ pub fn def() -> PropDef {
         rule: "configuration tuples (streaming parser in {cnf, wcnf, gcnf, btor2, aag section reader, aig section \
                reader}, chunk size in {1, 7, 64, 4096, 16384 (default), 1 MiB}, read size in {1, 13, one line, \
                chunk, unlimited}, maximal item size in {64 B, 1 KiB, 64 KiB}, content seed) drive an on-the-fly \
-               generated stream (never materialised) of N bytes with N >= 64 x bound through the parser while a \
+               generated stream (never materialised; DIMACS streams come in three shapes: clauses with occasional \
+               comments, a header whose declared clause count is reached after 100 clauses followed only by comment \
+               and blank lines, one clause spread over the whole stream with comment lines in between) of N bytes with N >= 64 x bound through the parser while a \
                counting global allocator records the peak live heap. Oracle: peak <= 16 x chunk + 16 x max_item + \
                64 KiB, and the parse ends cleanly. Non-trivial: N >= 64 x bound and items of the maximal size \
                occurred (every 500th item is padded to it). evaluations = configurations run.",
@@ -57,6 +59,11 @@ pub struct Config {
     pub seed: u64,
     /// Stream length in bytes (approximate; the stream ends at an item boundary).
     pub n: u64,
+    /// DIMACS only. 0: clauses (with an occasional comment). 1: a header declaring 100 clauses,
+    /// those clauses, then only comment and blank lines. 2: one clause whose literals are spread
+    /// over the whole stream with comment lines in between.
+    #[serde(default)]
+    pub shape: u8,
 }
 
 fn mix(seed: u64, i: u64) -> u64 {
@@ -75,6 +82,37 @@ fn item(cfg: &Config, idx: u64, out: &mut Vec<u8>) {
     let big = idx % 500 == 7;
     let target = if big { cfg.max_item } else { 8 + (r % 40) as usize };
     match cfg.parser {
+        ParserId::Cnf | ParserId::Wcnf | ParserId::Gcnf if cfg.shape == 1 && idx >= 100 => {
+            // trailing comment / blank lines after the declared number of clauses
+            if r % 11 == 0 {
+                out.extend_from_slice(b"  \n");
+            } else {
+                out.extend_from_slice(b"c");
+                while out.len() + 1 < target {
+                    out.push(b' ' + (mix(r, out.len() as u64) % 90) as u8);
+                }
+                out.push(b'\n');
+            }
+        }
+        ParserId::Cnf | ParserId::Wcnf | ParserId::Gcnf if cfg.shape == 2 => {
+            // one clause: literal lines with comment lines in between, terminated at the very end
+            if idx == 0 {
+                match cfg.parser {
+                    ParserId::Wcnf => out.extend_from_slice(b"7 "),
+                    ParserId::Gcnf => out.extend_from_slice(b"{3} "),
+                    _ => {}
+                }
+                out.extend_from_slice(b"1 2\n");
+            } else if idx % 1000 == 999 {
+                write!(out, "{}\n", r % 999 + 1).unwrap();
+            } else {
+                out.extend_from_slice(b"c");
+                while out.len() + 1 < target {
+                    out.push(b'a' + (out.len() % 26) as u8);
+                }
+                out.push(b'\n');
+            }
+        }
         ParserId::Cnf | ParserId::Wcnf | ParserId::Gcnf => {
             match cfg.parser {
                 ParserId::Wcnf => write!(out, "{} ", r % 1000).unwrap(),
@@ -154,9 +192,12 @@ impl Stream {
         }
         let avg = (sample / 2000).max(1);
         let items = (cfg.n / avg).max(10);
-        let header = match cfg.parser {
-            ParserId::Aag => Some(format!("aag {items} 0 0 0 {items}\n").into_bytes()),
-            ParserId::Aig => Some(format!("aig {items} 0 0 0 {items}\n").into_bytes()),
+        let header = match (cfg.parser, cfg.shape) {
+            (ParserId::Aag, _) => Some(format!("aag {items} 0 0 0 {items}\n").into_bytes()),
+            (ParserId::Aig, _) => Some(format!("aig {items} 0 0 0 {items}\n").into_bytes()),
+            (ParserId::Cnf, 1) => Some(b"p cnf 1000 100\n".to_vec()),
+            (ParserId::Wcnf, 1) => Some(b"p wcnf 1000 100 9\n".to_vec()),
+            (ParserId::Gcnf, 1) => Some(b"p gcnf 1000 100 50\n".to_vec()),
             _ => None,
         };
         let log = Rc::new(RefCell::new(SrcLog::default()));
@@ -187,7 +228,14 @@ impl Read for Stream {
         let mut n = 0;
         while n < limit {
             if self.pos == self.cur.len() {
-                if self.idx == self.items {
+                if self.idx == self.items && self.cfg.shape == 2 && self.cfg.parser.is_dimacs() {
+                    // terminate the single clause
+                    self.cur = b"0\n".to_vec();
+                    self.pos = 0;
+                    self.idx += 1;
+                    continue;
+                }
+                if self.idx >= self.items {
                     break;
                 }
                 let _ = &self.header;
@@ -255,7 +303,12 @@ pub fn check(cfg: &Config, obs: &mut Obs) -> CheckResult {
             cfg
         );
     }
-    let expect_items = items + if cfg.parser.is_aiger() { 1 } else { 0 };
+    let expect_items = match (cfg.parser.is_dimacs(), cfg.shape) {
+        (true, 1) => 101, // header + the declared 100 clauses
+        (true, 2) => 1,   // the one long clause
+        _ => items + if cfg.parser.is_aiger() { 1 } else { 0 },
+    };
+    obs.class(format!("shape/{}", if cfg.parser.is_dimacs() { cfg.shape } else { 0 }));
     if t.item_count as u64 != expect_items {
         fail!(
             format!("C10:{p}:item-count"),
@@ -307,8 +360,9 @@ fn config_strategy(quick: bool) -> impl Strategy<Value = Config> {
         ]),
         proptest::sample::select(vec![64usize, 1 << 10, 64 << 10]),
         any::<u64>(),
+        prop_oneof![2 => Just(0u8), 1 => Just(1u8), 1 => Just(2u8)],
     )
-        .prop_map(move |(parser, chunk, read, max_item, seed)| {
+        .prop_map(move |(parser, chunk, read, max_item, seed, shape)| {
             let max_item = if matches!(parser, ParserId::Aag | ParserId::Aig) { 64 } else { max_item };
             let mut cfg = Config {
                 parser,
@@ -317,6 +371,7 @@ fn config_strategy(quick: bool) -> impl Strategy<Value = Config> {
                 max_item,
                 seed,
                 n: 0,
+                shape: if parser.is_dimacs() { shape } else { 0 },
             };
             let mut n = 64 * bound(&cfg) as u64 + (1 << 20);
             if quick {
